@@ -682,7 +682,8 @@ within_epsilon (pixman_fixed_t a,
                 pixman_fixed_t b,
                 pixman_fixed_t epsilon)
 {
-    pixman_fixed_t t = a - b;
+    /* a - b does not fit 32 bits for all inputs (e.g. a == INT32_MIN) */
+    pixman_fixed_48_16_t t = (pixman_fixed_48_16_t) a - b;
 
     if (t < 0)
 	t = -t;
